@@ -2,12 +2,17 @@
    Proved for all inputs, over the counters regenerated from charger_state.py / base.py on every run: every operation
    moves exactly one counter by exactly one, refuses (Err / None) instead of leaving [0, total], keeps the bounds
    invariant and touches nothing else.
-   PARTIAL: the equation "installed - free = number of vehicles charging there" over whole histories (Inv_counts, DESIGN §5
-   C02) is decided by correspondence (contention profile) + monitor c02_counts, not yet by a theorem. *)
+   And over whole histories (C02_counts_over_histories): the state invariant Inv_counts — for every station and installed plug
+   type 0 <= free, installed - free = number of vehicles charging on that plug type there (directly or through the base the
+   station serves), waiting counter = number of vehicles queueing for it; for every base 0 <= free stalls and total - free =
+   number of vehicles parked or charging there — holds after every finite sequence of step operations with instructions from
+   ANY controller (one per vehicle per step), given that it holds initially (it does for a freshly loaded state:
+   C02_initial_state).  The bounds free <= installed follow (C02_bounds_follow).  Proved through the macro frame theorem. *)
 From Hive.Base Require Import Prelude.
 From Hive.Model Require Import Types KernelBase.
 From Hive.Gen Require Import Kernels.
-From Hive.Proofs Require Import Counters.
+From Hive.Model Require Import SimOps States Step.
+From Hive.Proofs Require Import Counters VehFrame Macro Count CountInv.
 Local Open Scope Z_scope.
 
 Theorem C02_checkout_plug : forall cs, 0 <= cs_avail cs ->
@@ -48,6 +53,25 @@ Theorem C02_stall_bounds_invariant : forall b, base_bounds b ->
   (forall b', base_checkout_stall b = Some b' -> base_bounds b') /\
   (forall b', base_return_stall b = Ok b' -> base_bounds b').
 Proof. exact base_bounds_preserved. Qed.
+
+(* the count used below is the number of entries of the vehicle map satisfying the predicate *)
+Theorem C02_count_meaning : forall (P : Vehicle -> bool) m,
+  cnt P m = Z.of_nat (length (filter (fun kv => P (snd kv)) (PM.elements m))).
+Proof. exact (@cnt_elements Vehicle). Qed.
+Theorem C02_counts_over_histories : forall env ops s0, vkeys s0 -> Inv_counts s0 -> Forall op_ok ops ->
+  vkeys (fold_left (step_op env) ops s0) /\ Inv_counts (fold_left (step_op env) ops s0).
+Proof. exact counts_invariant. Qed.
+Theorem C02_bounds_follow : forall s, Inv_counts s ->
+  (forall sid cid cs, slook (stations s) sid cid = Some cs -> 0 <= cs_avail cs <= cs_total cs /\ 0 <= cs_enq cs) /\
+  (forall bid b, find bid (bases s) = Some b -> 0 <= b_avail b <= b_total b).
+Proof. exact Inv_counts_bounds. Qed.
+Theorem C02_initial_state : forall s, skeys (stations s) -> bkeys (bases s) ->
+  (forall k v, find k (vehicles s) = Some v -> hold (v_state v) = H_none) ->
+  (forall sid cid cs, slook (stations s) sid cid = Some cs -> 0 <= cs_total cs /\ cs_avail cs = cs_total cs /\ cs_enq cs = 0) ->
+  (forall bid b, find bid (bases s) = Some b -> 0 <= b_total b /\ b_avail b = b_total b) ->
+  Inv_counts s.
+Proof. exact Inv_counts_initial. Qed.
+Print Assumptions C02_count_meaning. Print Assumptions C02_counts_over_histories. Print Assumptions C02_bounds_follow. Print Assumptions C02_initial_state.
 
 Print Assumptions C02_checkout_plug. Print Assumptions C02_return_plug. Print Assumptions C02_enqueue.
 Print Assumptions C02_dequeue. Print Assumptions C02_plug_bounds_invariant. Print Assumptions C02_checkout_stall.
